@@ -26,6 +26,8 @@ RULES = {
 
 def run(ctx):
     ctx.rule_texts.update(RULES)
+    from ..idioms import check_overflow_profile
+    check_overflow_profile(ctx)
     ctx.assumptions += ["A-ATOMIC", "A-PRIMS: cw_controllers::Claims create_claim / claim_tokens; Duration::after(block)", "A-OVF"]
     ctx.not_decided += ["the contract's real bank / cw20 balance (runtime, other contracts)", "Claims internals",
                         "Duration::after arithmetic", "numeric correctness of u128 division"]
